@@ -77,8 +77,8 @@ HalfTone == IsEv("halftone") /\ HalfToneLaw(Rec[l]) /\ UNCHANGED sweep
 \* ---- C16: volume v dB = v_milli / 1000: every sample is multiplied by 10^(v/20)
 GainLaw(e) == /\ Abs(e.gain_udb - 1000 * e.v_milli) <= 20            \* measured gain in micro-dB
               /\ e.resid_ppb <= 1000                                   \* x_v is ratio * x_0, sample by sample
-              \* "to rounding accuracy": factor = 10^(v/20) and residual, both within 1e-11 (f64 evaluation errs by < 1e-14)
-              /\ e.gain_err_e13 <= 100 /\ e.resid_e13 <= 100
+              \* "to rounding accuracy": factor = 10^(v/20) and residual, both within 1e-12 (f64 evaluation errs by < 1e-14; observed 0 in these units)
+              /\ e.gain_err_e13 <= 10 /\ e.resid_e13 <= 10
               /\ Abs(e.getv_nano) <= 100                               \* get_volume returns v up to rounding
               /\ e.len_equal /\ e.traj_equal                           \* and nothing else changes
 Gain == IsEv("gain") /\ GainLaw(Rec[l]) /\ UNCHANGED sweep
